@@ -10,10 +10,8 @@ NOT_APPLICABLE = {
     'C08': 'undo/resubmit invariance is a history property across all analysers and every index; the per-index contracts in reach are claimed under C09/C10',
     'C11': 'independence from hash seeds is a relational property of the whole pipeline; not expressible as a function contract',
     'C12': 'crash freedom of inference/type checking: tens of thousands of lines over an Arc-recursive type',
-    'C13': 'oracle relates AST to scope tree over rowan ASTs and iterator-adapter closures; a contract would restate the algorithm',
-    'C14': 'depends on C13 plus LSP handlers',
+    'C14': 'rename / references walk the reference index and rowan ASTs in the LSP handlers; the lookup half of C13 is claimed, the edit sets are not in reach',
     'C15': 'oracle is execution in a Lua VM; flow narrowing is whole-analysis',
-    'C16': 'global laws of a ~3 kLoC mutually recursive checker with db lookups; only two syntactic head guards are in reach — would overclaim',
     'C17': 'render -> parse -> infer round trip over strings and the type system',
     'C18': 'generic instantiation is a whole-pipeline property',
     'C27': 'interleavings of spawned notification tasks: no thread/async model in Verus or Kani',
